@@ -191,15 +191,6 @@ func writeJSON(path string, v any) {
 	}
 }
 
-func hashStr(s string) uint64 {
-	var h uint64 = 1469598103934665603
-	for i := 0; i < len(s); i++ {
-		h ^= uint64(s[i])
-		h *= 1099511628211
-	}
-	return h
-}
-
 // Minimize shrinks spec.Keep with ddmin while a violation with the same
 // signature persists (same seeds; the schedule seed is kept, so the schedule
 // of the shrunk script is whatever that seed yields for it).
